@@ -134,6 +134,13 @@ inductive RecvMode where
   | other (s : String)
   deriving DecidableEq, Repr, Inhabited
 
+/-- typecheck.go `arrayLitExpr`: which counter the bounds test of a positional element looks at -/
+inductive ArrLitIdx where
+  | runningIndex    -- `case cat == arrayT && index >= length` (index = previous key + 1)
+  | loopPosition    -- the position of the element in the literal (the seeded change of seeded/C12-3)
+  | other (s : String)
+  deriving DecidableEq, Repr, Inhabited
+
 structure TcFacts where
   ops : OpFacts
   /-- cfg.go `case landExpr` / `case lorExpr` call `check.logicalExpr(n)` and leave on its error -/
@@ -179,6 +186,8 @@ structure TcFacts where
       (`c == nil && n.rval.IsValid() && isNumber(typ.TypeOf())` → `check.representable`, which reads plain Go
       values through `constValue`) (7402c20) -/
   convTypedConstChecked : Bool
+  /-- typecheck.go arrayLitExpr: the bounds test of a positional element -/
+  arrayLitBound : ArrLitIdx
   deriving DecidableEq, Repr
 
 def CmpTok.eval : CmpTok → Nat → Nat → Bool
@@ -803,6 +812,33 @@ def retY (T : TcFacts) (results : List STy) (vals : List (Shape × Opnd)) : Res 
   if T.retTooManyCmp.eval vals.length results.length then .err
   if T.retTooFewCmp.eval vals.length results.length then .err
   retValsY T results vals
+
+/-! ### index discipline of array and slice literals (typecheck.go `arrayLitExpr`) -/
+
+/-- an element of an array / slice literal, as far as its index is concerned: `k: v` with an integer constant key, or `v` -/
+inductive LitElem where
+  | keyed (k : Int)
+  | pos
+  deriving DecidableEq, Repr, Inhabited
+
+/-- `arrayLitExpr` (element values aside): `i` is the position in the literal, `index` the running index, `vis` the
+    indexes seen so far. `length` is `typ.length` (0 for a slice type). A key goes through `check.index(key, length)`:
+    negative → error (`indexNegChecked`), `length ≥ 1 ∧ k ≥ length` → error. -/
+def arrayLitY (T : TcFacts) (isArray : Bool) (length : Nat) : List LitElem → (i index : Nat) → (vis : List Nat) → Res Unit
+  | [], _, _, _ => .ok ()
+  | .keyed k :: rest, i, _, vis =>
+    if k < 0 then (if T.indexNegChecked then .err else .abstain)
+    else if length ≥ 1 && k.toNat ≥ length then .err
+    else if vis.contains k.toNat then .err
+    else arrayLitY T isArray length rest (i + 1) (k.toNat + 1) (k.toNat :: vis)
+  | .pos :: rest, i, index, vis =>
+    match T.arrayLitBound with
+    | .other _ => .abstain
+    | m =>
+      let b := if m == .runningIndex then index else i
+      if isArray && b ≥ length then .err
+      else if vis.contains index then .err
+      else arrayLitY T isArray length rest (i + 1) (index + 1) (index :: vis)
 
 def rulesY (T : TcFacts) : Rules :=
   { un := unY T, recv := recvY T, bin := binY T, cmp := cmpY T, shift := shiftY T, conv := convY T, assert := assertY T,
